@@ -1034,6 +1034,34 @@ pub fn check(rec: &RunRecord) -> Vec<Violation> {
         }
     }
 
+    // ---------------- C17 (system level): the agent stops for inactivity only when every task has an outstanding vote,
+    // i.e. not before a full inactivity period has passed since the last lane activity its own handlers saw (each such
+    // event follows an envelope the read task received and is followed by a response the write task wrote at the same
+    // simulated instant).
+    if let (Some(Some(end)), None, false, true) = (rec.agent_ends.first(), rec.stop_step, crashed, sc.fake.is_none() && sc.fake_persist.is_none()) {
+        let stopped_by_itself = end.result == "Ok" && rec.crash_step.is_none() && !rec.store_fault_fired && !rec.step_limit_hit;
+        if stopped_by_itself {
+            if let (Some(times), Some(evs)) = (rec.handler_times.first(), rec.truth.first()) {
+                if times.len() == evs.len() {
+                    let stop_ms = evs.iter().zip(times.iter()).find(|((_, e), _)| matches!(e, TruthEv::Stop)).map(|(_, (_, m))| *m).unwrap_or(end.sim_ms);
+                    let last = evs
+                        .iter()
+                        .zip(times.iter())
+                        .filter(|((s, e), _)| *s < end.step && !matches!(e, TruthEv::Restored { .. } | TruthEv::Start | TruthEv::Stop))
+                        .map(|(_, t)| *t)
+                        .last();
+                    if let Some((step, ms)) = last {
+                        if stop_ms < ms + sc.knobs.inactive_timeout_ms {
+                            out.push(Violation::new("C17", "C17.stopped_while_active", "agent", format!(
+                                "the agent stopped by itself at {stop_ms} ms although its handlers had seen lane activity at {ms} ms (step {step}), less than the inactivity period of {} ms before",
+                                sc.knobs.inactive_timeout_ms)));
+                        }
+                    }
+                }
+            }
+        }
+    }
+
     // ---------------- C14 command lane: exactly once, in order per sender.
     // (A start-up deadlock is reported once, under C04.live, not as lost commands.)
     if let (Some(qs), true, false) = (q, clean_end, startup_deadlock(rec)) {
